@@ -2,7 +2,7 @@ import vlib
 
 PROP = dict(
     id="C08",
-    corr=["Model/C08Corr.vo", "Model/C08Fsm.vo", "Model/FsmCorr.vo"],
+    corr=["Model/C08Corr.vo", "Model/C08Fsm.vo", "Model/FsmCorr.vo", "Model/C08Invoice.vo"],
     design_ref="DESIGN.md §6 C08",
     technique="Coq theorems over (a) the shared executable model of swap/actions.go CreateAndBroadcastOpeningTransaction (message fields = wallet result + invoice of that step, by symbolic execution of the action) and (b) an executable model of CreateOpeningTransaction of the CLN/LND adapters (GetVoutAndVerify) and of LiquidOnChain for ALL wallet funding results; invoice constants regenerated from the running code; tied by vm_compute correspondence against the REAL adapters on fake wallets that place the swap output in every position, and by a monitor on observed steps of the REAL swap state machine comparing the stored / sent message with what the (fake) wallet and Lightning node were asked and answered",
     level_text="Machine-checked Coq proofs: the stored opening_tx_broadcasted message carries exactly the txid and output index the wallet adapter returned for the opening amount, the invoice the node answered to ONE request of u64(claim*1000) msat (= claim*1000 below 2^64/1000 sat) on the preimage whose hash is locked in the output, with expiry 86400/3600 s and final CLTV 503/29 (Bitcoin/Liquid, constants regenerated from the code), and on Liquid the swap's blinding key; for EVERY funded transaction containing the requested output (any order and number of outputs and inputs, change of any amount incl. the swap amount) the CLN and LND adapters report the id of the transaction they hand over for broadcast and an index whose output carries the swap amount under the swap script, and LiquidOnChain reports the index of the output with the swap script, which the swap's blinding key unblinds to the swap amount whenever the transaction would pass validation. Both index statements were false of the code as found (findings F_C08_1, F_C08_2, repaired).",
@@ -60,6 +60,19 @@ def run(ctx):
     res2 = vlib.eval_cases(d2)
     ctx.rules.append("(fsm) scenarios of one swap driven through the REAL SwapService (4 roles x btc/lbtc; directed flows, random walks with failure injection and restarts); in every step that stores the message: txid / script_out = the (fake) wallet's answer (random txid, index 0..2) for the opening amount, payreq decodes to claim*1000 msat, the hash the wallet was asked to lock, final CLTV 503/29, invoice requested with expiry 86400/3600, Liquid blinding key = the swap's; every sent opening_tx_broadcasted equals the stored one")
     ctx.absorb(res2, "fsm", signature=sig, describe=describe)
+    run_invoice(ctx, 40 if ctx.quick else 800)
+
+
+def run_invoice(ctx, n):
+    """invoice side: the REAL GetPayreq of both Lightning adapters asks the node for exactly the requested invoice"""
+    d = ctx.harness("invoice", outdir=ctx.work + "/invoice", args=["-n", n])
+    if d is None:
+        return
+    res = vlib.eval_cases(d)
+    ctx.rules.append("invoice family: the real clightning / lnd GetPayreq over a fake node recording the `invoice` / AddInvoice request: the protocol's own parameter sets (claim 86400 s / 503, 3600 s / 29; fee 600 s / 0) and random amounts, expiries and final CLTV deltas around 0, 18, 29, 80, 144, 503")
+    ctx.absorb(res, "invoice", signature=lambda c: "invoice:%s:node-asked-for-other-amount-expiry-cltv-or-preimage" % c.get("backend", "?"),
+               mismatch_is_violation=True,
+               describe=lambda c: "GetPayreq of the %s adapter asked the node for %s when the swap requested %s" % (c.get("backend"), c.get("node_was_asked"), c.get("requested")))
 
 
 def search(ctx):
